@@ -293,6 +293,20 @@ for _k in DATA_KINDS:
                 return f"{kind_}.{meth}", getattr(X, meth), (), {}
     _mk2(_k)
 
+# a sparse tensor that stores every entry, listed in the order of the dense layout (first subscript fastest) or in row-major order
+for _lay in ("F", "C"):
+    for _meth in ("full", "to_tensor", "double", "copy", "to_sptenmat"):
+        def _mk2f(lay, meth):
+            @entry(f"sptensor[every entry stored, {lay} order].{meth}", (1, 2, 3))
+            def _a(e, lay=lay, meth=meth):
+                A = np.abs(e.arr()) + 0.5
+                subs = np.stack(np.unravel_index(np.arange(A.size), A.shape, order=lay), axis=1)
+                S = ttb.sptensor(subs.copy(), A[tuple(subs.T)].reshape(-1, 1).copy(), A.shape)
+                if meth == "to_sptenmat":
+                    return "sptensor.to_sptenmat", S.to_sptenmat, (np.array([0]),), {}
+                return f"sptensor.{meth}", getattr(S, meth), (), {}
+        _mk2f(_lay, _meth)
+
 # sums with a single part, and with a dense part in first / last place: what they return must not be one of the parts
 for _parts in (("tensor",), ("sptensor",), ("ktensor",), ("ttensor",), ("tensor", "tensor"), ("tensor", "sptensor"), ("sptensor", "tensor"), ("ktensor", "tensor")):
     for _meth in ("full", "double", "to_tensor", "copy", "__neg__", "__pos__"):
